@@ -97,3 +97,66 @@ pub fn compile_eval(case: &Value) -> Value {
         }
     }
 }
+
+/// `{src, n, consts?}` → compiles `n` times in this process; returns the number of distinct
+/// outcomes and a digest of each (circuits compared structurally).
+pub fn compile_repeat(case: &Value) -> Value {
+    use std::collections::BTreeMap;
+    let src = case["src"].as_str().unwrap_or("");
+    let n = case["n"].as_u64().unwrap_or(8) as usize;
+    let consts = consts_of(&case["consts"]);
+    let mut outcomes: BTreeMap<String, usize> = BTreeMap::new();
+    for _ in 0..n {
+        let r = guarded(|| {
+            garble_lang::compile_with_options(
+                src,
+                CompileOptions { circuit_kind: CircuitKind::Ssa, consts: consts.clone(), optimize_duplicate_gates: true },
+            )
+        });
+        let key = match r {
+            Err(p) => format!("panic@{p}"),
+            Ok(Err(e)) => format!("error:{}", err_stage(&e).0),
+            Ok(Ok(prg)) => {
+                let CircuitType::Ssa(c) = &prg.circuit else { unreachable!() };
+                serde_json::to_string(&ssa_to_json(c)).unwrap()
+            }
+        };
+        *outcomes.entry(key).or_insert(0) += 1;
+    }
+    let digests: Vec<Value> = outcomes
+        .iter()
+        .map(|(k, v)| {
+            let short = if k.len() > 120 { format!("circuit:{}:{:x}", k.len(), fxhash(k)) } else { k.clone() };
+            json!([short, v])
+        })
+        .collect();
+    json!({"distinct": outcomes.len(), "outcomes": digests})
+}
+
+fn fxhash(s: &str) -> u64 {
+    let mut h: u64 = 0xcbf29ce484222325;
+    for b in s.bytes() {
+        h ^= b as u64;
+        h = h.wrapping_mul(0x100000001b3);
+    }
+    h
+}
+
+/// `{"PARTY": {"NAME": <serde Literal>}}`
+pub fn consts_of(v: &Value) -> garble_lang::GarbleConsts {
+    let mut out = std::collections::HashMap::new();
+    if let Some(obj) = v.as_object() {
+        for (party, cs) in obj {
+            let mut m = std::collections::HashMap::new();
+            if let Some(cs) = cs.as_object() {
+                for (name, lit) in cs {
+                    if let Ok(l) = serde_json::from_value::<garble_lang::literal::Literal>(lit.clone()) {
+                        m.insert(name.clone(), l);
+                    }
+                }
+            }
+            out.insert(party.clone(), m);
+        }
+    }
+    out
+}
